@@ -26,13 +26,13 @@ class Scenario:
     pass
 
 
-def gen_scenario(c, n, mode, b, independent=True, n_rows=2, K=2, features="sym", min_unlabeled=0):
-    """X (n,1) symbolic features, y with an explorer-chosen labeled mask, candidates per mode."""
+def gen_scenario(c, n, mode, b, independent=True, n_rows=2, K=2, features="sym", min_unlabeled=0, n_features=1):
+    """X (n, n_features) symbolic features, y with an explorer-chosen labeled mask, candidates per mode."""
     s = Scenario()
     s.n, s.mode, s.b, s.K = n, mode, b, K
     if features == "sym":
-        xs = [fresh_float(f"x{i}") for i in range(n)]
-        s.X = arrays.SymNd(arrays._to_obj(xs), float).reshape(n, 1)
+        xs = [fresh_float(f"x{i}" if n_features == 1 else f"x{i}_{f}") for i in range(n) for f in range(n_features)]
+        s.X = arrays.SymNd(arrays._to_obj(xs), float).reshape(n, n_features)
     else:
         s.X = F.arange(n).astype(float).reshape(n, 1)
     rec(c, "X", s.X)
@@ -68,8 +68,8 @@ def gen_scenario(c, n, mode, b, independent=True, n_rows=2, K=2, features="sym",
         s.ncols = n
     elif mode == "rows":
         m = n_rows
-        rs = [fresh_float(f"r{i}") for i in range(m)]
-        s.cand = arrays.SymNd(arrays._to_obj(rs), float).reshape(m, 1)
+        rs = [fresh_float(f"r{i}" if n_features == 1 else f"r{i}_{f}") for i in range(m) for f in range(n_features)]
+        s.cand = arrays.SymNd(arrays._to_obj(rs), float).reshape(m, n_features)
         rec(c, "cand_rows", s.cand)
         s.cand_set = list(range(m))
         s.ncols = m
@@ -279,9 +279,9 @@ BASE_UNITS = ["skactiveml.base:PoolQueryStrategy._validate_data",
 
 
 # --------------------------------------------------------------------------
-def sym_query(c, prop, strat, n, mode, b):
+def sym_query(c, prop, strat, n, mode, b, feats=1):
     a = ADAPTERS[strat]
-    s = gen_scenario(c, n, mode, b, independent=a.independent, min_unlabeled=a.min_unlabeled)
+    s = gen_scenario(c, n, mode, b, independent=a.independent, min_unlabeled=a.min_unlabeled, n_features=feats)
     env = Env(c)
     qs = a.make(s.seed, sym=True)
     xs0 = s.X.copy()
@@ -301,7 +301,7 @@ def sym_query(c, prop, strat, n, mode, b):
     return s, out
 
 
-def replay_query(inputs, label, prop, strat, n, mode, b):
+def replay_query(inputs, label, prop, strat, n, mode, b, feats=1):
     a = ADAPTERS[strat]
     s = real_scenario(inputs, n, mode)
     seeds = [s.seed] + ([] if inputs.get("__scripted__") else list(range(30)))
@@ -326,7 +326,7 @@ def replay_query(inputs, label, prop, strat, n, mode, b):
     return False, "not reproduced"
 
 
-def validate_query(inputs, prop, strat, n, mode, b):
+def validate_query(inputs, prop, strat, n, mode, b, feats=1):
     """translator validation: the real query on the inputs of a proven symbolic path (the model's seed and stub-model
     table); returns the predicates the real run violates (expected: none)"""
     a = ADAPTERS[strat]
